@@ -100,7 +100,7 @@ fn main() {
         rep.evaluations += 1;
         rep.transitions += 3;
         let protos: Vec<MetricFamily> = fams.iter().map(|f| f.to_proto()).collect();
-        match catch(|| check_stream(&schema, &protos, fams)) {
+        match watchdog::case(|| format!("protobuf round trip of {:?}", fams.iter().map(|f| f.key(true)).collect::<Vec<_>>()), || catch(|| check_stream(&schema, &protos, fams))) {
             Ok(Ok(bytes)) => {
                 rep.outcome(format!("{:02x?}", bytes));
                 if rep.evaluations % 3001 == 1 {
